@@ -9,11 +9,14 @@ Tie: all ranked operator trees over the union alphabet to depth 2 (exhaustive) +
 construct, cast_to every other module, mixed-module operands, the three guards with a Kripke and a non-Kripke;
 independent direct oracle on the implementation: whatever gets built in module M is a formula of M by the documented
 syntax (decided by the driver's `inLogic` on the tree), casts keep the tree and land in the target module.
+Stream FAPI (checks/formula_api.py, PMC/Properties/C08Api.lean): operators & | ~, the CTL shortcuts, str/bool/other
+operands of every constructor, clone(), subformula(i)/subformulas() against PMC/Model/FormulaApi.lean.
 """
 import common
 from common import lean_batch, proof_coverage, rng_for, sexpr, tree_str, tree_depth
 from theorems import get
 import validate_classes as V
+from checks import formula_api
 
 MODULES, THEOREMS = get('C08')
 
@@ -133,6 +136,8 @@ def run(res):
                     if flag == '0' and r != 'TypeError':
                         direct.append(('%s.modelcheck on a non-Kripke did not raise TypeError (%s)' % (chk, r), m, t))
                     add('guard-' + chk, 'GUARD|%s|%s|%s|%s' % (chk, m, sexpr(t), flag), r, ('guard', chk, m, t, flag))
+    # the rest of the formula API (operators, CTL shortcuts, shorthand operands, clone, subformula) vs PMC/Model/FormulaApi.lean
+    fapi = formula_api.run_stream(res, rng_for('C08/FAPI'), quick, mods, small, built)
     got = lean_batch(lines)
     inl = lean_batch(['INLOGIC|%s|%s' % (m, sexpr(t)) for m, t, _ in inlogic_q])
     for (m, t, r), a in zip(inlogic_q, inl):
@@ -174,6 +179,8 @@ def run(res):
         'exhaustive': True, 'exhaustive_scope': 'depth <= 2', 'outcomes': stats, 'disagreements': bad,
         'direct_oracle_violations': len(direct), 'operator_overload_and_shortcut_cases': overload,
         'is_a_state_formula_compared': len(isq), 'is_a_state_formula_mismatches': isstate_bad,
+        'formula_api': fapi, 'formula_api_cases': fapi['cases'], 'formula_api_mismatches': fapi['mismatches'],
+        'formula_api_results_outside_the_logic': fapi['results_outside_the_logic'],
         'samples': [{'op': lines[i], 'impl': expect[i], 'model': got[i]} for i in (7, len(lines) // 2, len(lines) - 1)],
         'traces_validated_against_impl': len(lines),
     })
